@@ -88,7 +88,7 @@ func (p *Prog) rgOps(f *ssa.Function, depth int) []rgOp {
 
 func checkC09(c *Ctx) {
 	p := c.P
-	checkReceiverDiscipline(c, "R6", func(n string) bool { return n == "openGameManager" }, 8)
+	checkReceiverDiscipline(c, "R6", p.implementersIn("/open_game_manager", "OpenGameManager"), 8)
 	checkNoKnownNilErrorReturn(c, "R2", func(f *ssa.Function) bool { return inPkg(p, f, "/open_game_manager") && f.Parent() == nil }, 0)
 	gt := p.singleImpl("/open_game_manager", "OpenGameManager")
 	if gt == nil {
